@@ -20,11 +20,11 @@ CHECKS = {
    note='TLC; VT/FF inside quotes not judged (O5); MC alphabet restricted to low-byte-unique characters (TLC fingerprint limitation), U+2028/2029 added on the implementation side',
    technique='TLA+ lexer spec model-checked by TLC + TLC trace validation of recorded token streams'),
  'C18': dict(engine='syntax', design='5 C18, 4.10',
-   text='TLC checks on all strings/atom texts up to a bound that Quote gives one STRING token, Unquote inverts it, and that evaluation kind/type follow JSON number syntax (two formulations) (MC_Constant); recorded quote/evaluate/type results of the real code on the same spaces and beyond are judged by TLC.',
+   text='TLC checks on all strings/atom texts up to a bound that Quote gives one STRING token, Unquote inverts it, and that evaluation kind/type follow JSON number syntax (two formulations) (MC_Constant); recorded quote/evaluate/type results of the real code on the same spaces and beyond (atom texts with % s d { }, error paths included) are judged by TLC.',
    note='numeric values are not modelled (kinds/types only); TLC string equality decides evaluate(quote(s)) = s',
    technique='TLA+ constant spec model-checked by TLC + TLC trace validation'),
  'C19': dict(engine='syntax', design='5 C19, 4.2',
-   text='TLC checks ParseTriples(FmtTriples(ts)) = ts and agreement of all documented spacing variants on every small list (MC_Triples); recorded format_triples/parse_triples executions on corpus graphs and random lists (quoted targets with blanks, commas, parentheses, carets) are judged by TLC. The text is read a second time after the caller has changed the first result in place.',
+   text='TLC checks ParseTriples(FmtTriples(ts)) = ts and agreement of all documented spacing variants on every small list (MC_Triples); recorded format_triples/parse_triples executions on corpus graphs and random lists (quoted targets with blanks, commas, parentheses, carets) are judged by TLC. The text is read a second time after the caller has changed the first result in place; two jobs in five go through the methods of a codec instead of the module-level functions, and one conjunction has more triples (1100) than the interpreter has stack frames by default.',
    note='lists outside the notation (commas/carets in sources or roles) are not judged',
    technique='TLA+ triple-conjunction spec model-checked by TLC + TLC trace validation'),
  'C04': dict(engine='layout', design='5 C04, 4.5',
@@ -52,7 +52,7 @@ CHECKS = {
    note='marker-less answers beyond "no exception, no pushed variable" are drift',
    technique='TLA+ ghost-variable spec model-checked by TLC + TLC trace validation'),
  'C10': dict(engine='layout', design='5 C10, 4.10',
-   text='The naming loop of reset_variables is a TLA+ machine (MC_Relabel): TLC checks bijection, first-free-candidate choice, agreement with the functional plan, the pigeonhole progress measure and termination for every format with an index field; recorded reset_variables executions on corpus and random trees x formats are judged by TLC: the observed map is a bijection, applied at every definition and (aligned) reference and nowhere else, and interpretation commutes with renaming. In the thorough tier Apalache discharges an inductive invariant of the naming loop (Apa_Relabel: injective for any names and any number of candidates tried, trees of up to 8 nodes).',
+   text='The naming loop of reset_variables is a TLA+ machine (MC_Relabel): TLC checks bijection, first-free-candidate choice, agreement with the functional plan, the pigeonhole progress measure and termination for every format with an index field; recorded reset_variables executions on corpus and random trees x formats are judged by TLC: the observed map is a bijection, applied at every definition and (aligned) reference and nowhere else, and interpretation commutes with renaming - decided both on the reading of the two trees by the specification and on interpret() of the library itself, applied to the tree before and after the call. In the thorough tier Apalache discharges an inductive invariant of the naming loop (Apa_Relabel: injective for any names and any number of candidates tried, trees of up to 8 nodes).',
    note='F15 (formats without index field never return when two nodes format alike) is an open known finding, detected by a 1-2 s timeout and the specification predicate; the documented prefix (first alphabetic character of the concept, lower-cased, or _) and the depth-first first-free choice of the index gate',
    technique='TLA+ machine of the naming loop model-checked by TLC + TLC trace validation'),
  'C13': dict(engine='model', design='5 C13, 4.4',
@@ -64,7 +64,7 @@ CHECKS = {
    note='markers of triples common to both operands and multiplicity of duplicates from the right operand are drift (O6)',
    technique='TLA+ history machine model-checked by TLC + spec-to-code replay of TLC-simulated histories, validated step by step by a TLC trace specification'),
  'C11': dict(engine='transform', design='5 C11, 4.9',
-   text='TLC checks on the specification that reify-then-dereify is the identity on the triples and alignment markers of every graph without a collapsible node, that no reifiable role is left, and that dereification never collapses the top, a referenced node or a node with another relation (MC_Transform: InverseLaw, NeverCollapsesTopOrShared); recorded reify_edges / dereify_edges / encode executions on random graphs over the AMR and MiniAMR inventories are judged by TLC on the stated clauses (fresh variables, top and other triples kept, original triples and identical text restored).',
+   text='TLC checks on the specification that reify-then-dereify is the identity on the triples and alignment markers of every graph without a collapsible node, that no reifiable role is left, and that dereification never collapses the top, a referenced node or a node with another relation (MC_Transform: InverseLaw, NeverCollapsesTopOrShared); recorded reify_edges / dereify_edges / encode executions on random graphs over the AMR and MiniAMR inventories are judged by TLC on the stated clauses (fresh variables, top and other triples kept, original triples and identical text restored); start graphs are decoded, rebuilt with an explicit top, or built from triples alone with an edge of the top first.',
    note='preconditions (no collapsible node initially, unambiguous table for the roles used) are specification predicates; model tables are data',
    technique='TLA+ transformation functions model-checked by TLC + TLC trace validation of recorded reify/dereify executions'),
  'C12': dict(engine='transform', design='5 C12, 4.9',
@@ -72,7 +72,7 @@ CHECKS = {
    note='graphs using both roles of an ambiguous reification (AMR :subset and :superset) are outside the precondition (O14)',
    technique='TLA+ program machine model-checked by TLC + step-by-step TLC trace validation of recorded transformation programs'),
  'C16': dict(engine='cli', design='5 C16, 4.11',
-   text='The run of the tool is a TLA+ machine (MC_CliRun: inputs in order, graphs in order, status accumulated): TLC checks exit = 1 iff --check and some graph of some input is bad, monotonicity of the status, one output per graph in order and termination for every sequence of up to 3 inputs of up to 2 good/bad graphs; every such sequence exported by TLC is run through the real command (files, stdin, subprocess sample) and TLC judges exit status and error-N metadata; Model.errors of the real code on all small and random triple lists x tops x models is judged by TLC against the specification of role validity and weak reachability. The exit status is also judged under --quiet (nothing may be written).',
+   text='The run of the tool is a TLA+ machine (MC_CliRun: inputs in order, graphs in order, status accumulated): TLC checks exit = 1 iff --check and some graph of some input is bad, monotonicity of the status, one output per graph in order and termination for every sequence of up to 3 inputs of up to 2 good/bad graphs; every such sequence exported by TLC is run through the real command (files, stdin, subprocess sample) and TLC judges exit status and error-N metadata; Model.errors of the real code on all small and random triple lists x tops x models is judged by TLC against the specification of role validity and weak reachability. The exit status is also judged under --quiet (nothing may be written); role validity is also judged on lists over the own vocabulary of eight custom tables (defined roles, keys and values of normalisation entries, plain and inverted).',
    note='which graphs are bad in the command runs is taken from Model.errors, itself judged in the same check; one metadata entry per offending triple (O8)',
    technique='TLA+ exit-status machine model-checked by TLC + replay of TLC-enumerated input sequences on the real command + TLC trace validation of Model.errors'),
  'C20': dict(engine='cli', design='5 C20, 4.11',
@@ -84,7 +84,7 @@ CHECKS = {
    note='the OS is not modelled (a file is a text split at LF, CRLF, CR); error positions are C07; graphs in the dumps clause must come from well-formed trees under the model (specification predicate)',
    technique='TLA+ spec of containers and stream framing model-checked by TLC + TLC trace validation of recorded load/dump executions'),
  'C17': dict(engine='purity', design='5 C17, 4.11',
-   text='Purity.tla is a history machine over a pool of shared objects with 29 API operations: TLC checks the frame conditions (a pure call changes no pool object, an in-place call changes only its target) and that results are a function of argument values on every history up to a bound, and generates call histories in simulation mode; each history is replayed on real objects under four hash seeds and inside a worker process with snapshots of every pool object before and after every call; TLC validates the frame conditions on the recorded snapshots, function-of-arguments across the history, and identity of all runs; the command is run as a subprocess under four hash seeds and outputs compared by TLC. After every call that returns a plain value the caller changes that value in place and repeats the call (a returned value belongs to the caller); a directed sub-machine (DSpec), enumerated completely by TLC, lets a graph derived from a pool graph meet that graph as the other operand of every binary operation, in both orders.',
+   text='Purity.tla is a history machine over a pool of shared objects with 29 API operations: TLC checks the frame conditions (a pure call changes no pool object, an in-place call changes only its target) and that results are a function of argument values on every history up to a bound, and generates call histories in simulation mode; each history is replayed on real objects under four hash seeds and inside a worker process with snapshots of every pool object before and after every call; TLC validates the frame conditions on the recorded snapshots, function-of-arguments across the history, and identity of all runs; the command is run as a subprocess under four hash seeds and outputs compared by TLC. After every call that returns a plain value the caller changes that value in place and repeats the call (a returned value belongs to the caller); a directed sub-machine (DSpec), enumerated completely by TLC, lets a graph derived from a pool graph meet that graph as the other operand of every binary operation, in both orders. Documented calls with a mutable plain argument, and nine Model methods with the model itself as the observed argument (error paths included), are recorded with the argument before and after.',
    note='hash seeds and processes cannot be modelled: identical histories are replayed and compared; projection excludes the iteration order of the marker dictionary (O6)',
    technique='TLA+ history machine (frame conditions) model-checked by TLC + replay of TLC-simulated call histories under several hash seeds/processes, validated by TLC'),
 }
